@@ -18,7 +18,8 @@ META = dict(
     min={"backward_passes": 400, "grad_checks:input": 400, "grad_checks:weight": 200, "grad_checks:bias": 100,
          "frozen_checks": 80, "weight_updates": 150, "noncontiguous_upstream": 60, "quantized_inputs": 80,
          "ste_checks": 300, "ste_checks:qbits": 80, "ste_checks:activation": 60, "inputs_without_grad": 60, "eval_mode_modules": 100,
-         "held_optimizer_steps": 100, "reloads_between_steps": 30},
+         "held_optimizer_steps": 100, "reloads_between_steps": 30,
+         "many_row_inputs": 8, "backward_purity_checks": 400},
     anchors=["tensor/qtensor_func.py:QTensorLinear.forward", "tensor/qtensor_func.py:QTensorLinear.backward",
              "tensor/quantizers/symmetric.py:SymmetricQuantizer.backward", "nn/qmodule.py:QModuleMixin.qweight",
              "tensor/quantizers/affine.py:AffineQuantizer.backward", "tensor/qbits/qbits.py:QBitsDequantizer.backward",
@@ -201,8 +202,16 @@ def run(ctx):
                 rank = int(rng.integers(1, 5))
                 xshape = {1: (fin,), 2: (int(rng.integers(1, 20)), fin), 3: (2, int(rng.integers(1, 6)), fin),
                           4: (2, 1, 3, fin)}[rank]
-                if rank == 2 and rng.random() < 0.12:
-                    xshape = (int(rng.choice([256, 1024])), fin)  # many rows: long sums in the weight gradient
+                if rank >= 2 and rng.random() < 0.1:
+                    # many rows (a batch of token sequences): long sums in the weight gradient, sizes on both sides of the
+                    # powers of two a blocked implementation would choose
+                    rows = int(rng.choice([256, 1024, 1026, 1500, 1900, 2500, 3000]))
+                    if rng.random() < 0.7:
+                        upk = "random"  # every row contributes
+                    fin = int(rng.choice([3, 8, 16]))
+                    xshape = {2: (rows,), 3: (2, rows // 2) if rows % 2 == 0 else (1, rows),
+                              4: (2, 1, rows // 2) if rows % 2 == 0 else (1, 1, rows)}[rank] + (fin,)
+                    n_upd = min(n_upd, 1)
                 if gen.int8pack_crash_class(wd, wq, fin, quantized_activations=aq is not None):
                     wq = "qfloat8"
             desc = dict(case=i, dtype=str(wd), weights=wq, activations=aq, conv=conv, bias=bias, frozen=frozen, upstream=upk,
@@ -210,6 +219,10 @@ def run(ctx):
             if not ctx.case(desc):
                 continue
             r = ctx.crng
+            if not conv and int(np.prod(xshape[:-1])) >= 256:
+                ctx.count("many_row_inputs")
+                if aq is not None and not frozen and int(np.prod(xshape[:-1])) % 1024:
+                    ctx.count("many_row_inputs:quantized_activations_trainable_weight_odd_rows")
             ste_check(ctx, oq, r, wd)
             sig0 = dict(module="conv" if conv else "linear",
                         weights=wq if wq in ("qint4", "qint2") else ("float8" if "float8" in wq else "int8"),
@@ -301,8 +314,18 @@ def run(ctx):
                     G = upstream(r, upk, tuple(o.shape), wd)
                     if not G.is_contiguous():
                         ctx.count("noncontiguous_upstream")
+                    # a backward pass reads: the upstream gradient (other consumers of the same output receive the very same
+                    # tensor), the input and the parameters are left as they were
+                    pure0 = (fp.plain_bytes(G), fp.plain_bytes(x.detach()), fp.tensor_fp(q.weight.detach()),
+                             None if q.bias is None else fp.plain_bytes(q.bias.detach()))
                     o.backward(G)
                     ctx.count("backward_passes")
+                    pure1 = (fp.plain_bytes(G), fp.plain_bytes(x.detach()), fp.tensor_fp(q.weight.detach()),
+                             None if q.bias is None else fp.plain_bytes(q.bias.detach()))
+                    ctx.count("backward_purity_checks")
+                    for what, b0, b1 in zip(("upstream_gradient", "input", "weight", "bias"), pure0, pure1):
+                        if b0 != b1:
+                            ctx.violation(dict(sig0, kind="backward_modifies_" + what, upstream=upk), dict(desc=desc, step=step))
                 except Exception as e:
                     import re
 
